@@ -1,4 +1,5 @@
 import QmiModel.Model.Context
+import QmiModel.Model.ContextCalls
 import Drv.Common
 /-! Line-protocol driver for the context-lifecycle model (property C12).
 
@@ -44,6 +45,7 @@ def connS : Conn → String | .tcp => "tcp" | .udp => "udp" | .peer i => s!"p{i}
 def evS : Ev → String
   | .reg n i => s!"reg:{n}:{i}" | .unreg n i => s!"unreg:{n}:{i}" | .rel i => s!"rel:{i}" | .join i => s!"join:{i}"
   | .handler i => s!"h:{i}"
+  | .warn i => s!"warn:{i}" | .tstop i => s!"tstop:{i}" | .relExc i => s!"relexc:{i}"
 
 def resS (r : Residue) : String :=
   let mp := join (r.objMap.map (fun e => s!"{e.1}:" ++ (match e.2 with | some i => toString i | none => "-")))
@@ -55,7 +57,7 @@ def resS (r : Residue) : String :=
 def obs (c : Ctx) : String :=
   let (tr, tp, tt) := c.threads
   s!"a={b01 c.active} u={b01 c.used} t={b01 c.tcpSet} {resS c.residue} thr={tr},{tp},{tt} " ++
-  s!"rel={join (c.released.map toString)} hc={join (c.hcalls.map toString)} ev={join (c.log.map evS)}"
+  s!"rel={join (c.released.map toString)} lo={join (c.leftOpen.map toString)} hc={join (c.hcalls.map toString)} ev={join (c.log.map evS)}"
 
 def pobs (p : Proc) : String :=
   let lk := (p.dropped.map Ctx.threadCount).foldl (· + ·) 0
@@ -67,6 +69,18 @@ def pobs (p : Proc) : String :=
 structure W where
   c : Ctx := Ctx.init false
   p : Proc := Proc.init
+  m : Mgr.MState := Mgr.MState.init
+
+def parseMAct (ws : List String) : Option Mgr.MAct :=
+  match ws with
+  | ["deliver", r] => do some (.deliver (← r.toNat?))
+  | ["stopflag"] => some .stopFlag
+  | ["shutdown"] => some .shutdown
+  | ["see"] => some .see
+  | ["exec", r] => do some (.exec (← r.toNat?))
+  | ["reject", r] => do some (.reject (← r.toNat?))
+  | ["exit"] => some .exit
+  | _ => none
 
 def pBool (s : String) : Option Bool := if s == "1" then some true else if s == "0" then some false else none
 def pKind (s : String) : Option Kind :=
@@ -115,6 +129,18 @@ def explore (a : MakeArgs) : Nat → CState → List String → List String
 def concOutcomes (c : Ctx) (a : MakeArgs) : List String :=
   explore a (5 + 2 + 2 * (c.objMap.length + 1)) (cinit c) []
 
+def outcome2S (st : C2State) : String :=
+  let f : MPc → String := fun x => match mResult x with | some r => outS r | none => "unfinished"
+  s!"mk1={f st.m1} mk2={f st.m2} {resS st.c.residue} rel={join (st.c.released.map toString)}"
+
+def explore2 (a1 a2 : MakeArgs) : Nat → C2State → List String → List String
+  | 0, st, acc => insertSorted (outcome2S st) acc
+  | fuel + 1, st, acc =>
+    if st.m1.isDone && st.m2.isDone then insertSorted (outcome2S st) acc
+    else
+      let acc := if st.m1.isDone then acc else explore2 a1 a2 fuel (c2step a1 a2 st true) acc
+      if st.m2.isDone then acc else explore2 a1 a2 fuel (c2step a1 a2 st false) acc
+
 def stepLine (w : W) (line : String) : W × String :=
   let ws := line.splitOn " "
   match ws with
@@ -123,6 +149,20 @@ def stepLine (w : W) (line : String) : W × String :=
     | some t => let c := Ctx.init t; ({ w with c }, "ok | " ++ obs c)
     | none => (w, "bad-op")
   | ["probe"] => (w, outS (freshStart w.c))
+  | ["mnew"] => ({ w with m := Mgr.MState.init }, "ok")
+  | ["mend"] =>
+    (w, s!"exited={b01 w.m.exited} fifo={w.m.fifo.length} unanswered={w.m.delivered.length - w.m.fifo.length - w.m.answered.length}")
+  | "m" :: rest =>
+    match parseMAct rest with
+    | none => (w, "bad-op")
+    | some a =>
+      match Mgr.mstep w.m a with
+      | none => (w, "bad-step")
+      | some m' =>
+        let o := match a with
+          | .deliver _ => if w.m.running then "pushed" else "refused"
+          | _ => "ok"
+        ({ w with m := m' }, o)
   | ["qnew"] => ({ w with p := Proc.init }, "ok | " ++ pobs Proc.init)
   | ["qstart", v, t, tf, uf, peers] =>
     match pBool v, pBool t, pBool tf, pBool uf, pPeers peers with
@@ -149,6 +189,12 @@ def stepLine (w : W) (line : String) : W × String :=
     | some k, some n, some cf, some rf, some rb =>
       (w, " ; ".intercalate (concOutcomes w.c { k, n, ctorF := cf, relF := rf, runB := rb }))
     | _, _, _, _, _ => (w, "bad-op")
+  | ["conc2", k1, n1, cf1, rf1, rb1, k2, n2, cf2, rf2, rb2] =>
+    match pKind k1, n1.toNat?, pBool cf1, pBool rf1, pRun rb1, pKind k2, n2.toNat?, pBool cf2, pBool rf2, pRun rb2 with
+    | some k1, some n1, some cf1, some rf1, some rb1, some k2, some n2, some cf2, some rf2, some rb2 =>
+      (w, " ; ".intercalate (explore2 { k := k1, n := n1, ctorF := cf1, relF := rf1, runB := rb1 }
+                                      { k := k2, n := n2, ctorF := cf2, relF := rf2, runB := rb2 } 10 (c2init w.c) []))
+    | _, _, _, _, _, _, _, _, _, _ => (w, "bad-op")
   | _ =>
     match parseOp ws with
     | some op => let (c, o) := step w.c op; ({ w with c }, outS o ++ " | " ++ obs c)
